@@ -807,22 +807,29 @@ from typing import Protocol  # noqa: E402
 from vgi_rpc.rpc import ProducerState, Stream  # noqa: E402
 from vgi_rpc.rpc._common import _EMPTY_SCHEMA, AuthContext  # noqa: E402
 
-_P: dict = {"script": (0, 0, 0), "n": 0, "i": 0, "fr": 0}
-_ROUTE_NONE, _ROUTE_CTX, _ROUTE_OUT = 0, 1, 2
+_P: dict = {"script": (0, 0, 0), "n": 0, "i": 0, "fr": 0, "nr": 3}
+_ROUTE_NONE, _ROUTE_CTX, _ROUTE_OUT, _ROUTE_OUT_CTX, _ROUTE_CTX_OUT = 0, 1, 2, 3, 4  # the last two: both handles in one tick
 _CAPS = (None, 1, 1_000_000)  # one produce() per turn (no cap / tiny cap) or all of them in one turn
 
 
+def _route_handles(route: int) -> str:
+    """The handles a tick logs through, in emission order: 'c' = ctx.client_log, 'o' = out.client_log."""
+    return ("", "c", "o", "oc", "co")[route]
+
+
+def _log_names(route: int, i: int) -> list:
+    return ["m-%d%s" % (i, "ab"[j]) if j else "m-%d" % i for j in range(len(_route_handles(route)))]
+
+
 def _emit_log(route: int, i: int, out, ctx) -> None:  # type: ignore[no-untyped-def]
-    if route == _ROUTE_CTX:
-        ctx.client_log(Level.INFO, "m-%d" % i)
-    elif route == _ROUTE_OUT:
-        out.client_log(Level.INFO, "m-%d" % i)
+    for h, name in zip(_route_handles(route), _log_names(route, i)):
+        (ctx if h == "c" else out).client_log(Level.INFO, name)
 
 
 @dataclass
 class _LoggingProducer(ProducerState):
-    """Step k: log route k % 3, then k // 3 = emit | emit + finish | finish without data.
-    After the script: a finishing tick without data that logs through route ``fr``."""
+    """Step k (nr = number of log routes in play): log route k % nr, then k // nr = emit | emit + finish |
+    finish without data.  After the script: a finishing tick without data that logs through route ``fr``."""
 
     def produce(self, out, ctx) -> None:  # type: ignore[no-untyped-def]
         i = _P["i"]
@@ -831,11 +838,12 @@ class _LoggingProducer(ProducerState):
             _emit_log(_P["fr"], i, out, ctx)
             out.finish()
             return
+        nr = _P["nr"]
         k = _P["script"][i]
-        _emit_log(k % 3, i, out, ctx)
-        if k < 6:
+        _emit_log(k % nr, i, out, ctx)
+        if k < 2 * nr:
             out.emit(_BATCHES[i])
-        if k >= 3:
+        if k >= nr:
             out.finish()
 
 
@@ -871,33 +879,39 @@ def _stub_mint_cursor(*a, **k):  # type: ignore[no-untyped-def]
 _producer_turn_rg = reglobalize(aps._run_http_producer_turn, _mint_cursor_token=_stub_mint_cursor)
 
 
-def _expected_sequence(n: int, script: tuple, fr: int) -> list:
-    want: list = []
+def _expected_sequence(n: int, script: tuple, fr: int, nr: int = 3, init_log: bool = False) -> list:
+    want: list = [("log", "init")] if init_log else []
     for i in range(n):
         k = script[i]
-        if k % 3 != _ROUTE_NONE:
-            want.append(("log", "m-%d" % i))
-        if k < 6:
+        want.extend(("log", name) for name in _log_names(k % nr, i))
+        if k < 2 * nr:
             want.append(("data", i))
-        if k >= 3:
+        if k >= nr:
             return want
-    if fr != _ROUTE_NONE:
-        want.append(("log", "m-%d" % n))  # emitted in the finishing tick, after the last batch
+    want.extend(("log", name) for name in _log_names(fr, n))  # emitted in the finishing tick, after the last batch
     return want
 
 
-def _drive_producer_turns(cap, n: int, script: tuple, fr: int):  # type: ignore[no-untyped-def]
+def _drive_producer_turns(cap, n: int, script: tuple, fr: int, nr: int = 3, init_turn: bool = False):  # type: ignore[no-untyped-def]
+    """``init_turn``: the first turn is the one folded into /init -- it is handed the call's _ClientLogSink,
+    already holding the init method's own log, as _run_http_stream_init does; later turns get no sink."""
     _P["script"] = script
     _P["fr"] = fr
+    _P["nr"] = nr
     _P["n"] = n
     _P["i"] = 0
     app = _TurnApp(cap)
     seen: list = []
     logs: list = []
     for _turn in range(8):
+        kw = {}
+        if init_turn and _turn == 0:
+            sink = wire._ClientLogSink(server_id="srv")
+            sink(Message(Level.INFO, "init"))
+            kw["sink"] = sink
         body = _producer_turn_rg(
             app, schema=_SCHEMA, state=_LoggingProducer(), input_schema=_EMPTY_SCHEMA, method_name="gen", stream_id="sid", call_id=b"c",
-            auth=AuthContext.anonymous(), transport_metadata={}, outcome=aps._DispatchOutcome(),
+            auth=AuthContext.anonymous(), transport_metadata={}, outcome=aps._DispatchOutcome(), **kw,
         )
         rd = ValidatedReader(ipc.open_stream(body), IpcValidation.FULL)
         token = None
@@ -926,34 +940,84 @@ class _LogProto(Protocol):
 
 
 class _LogImpl:
-    def gen(self) -> Stream[_LoggingProducer]:
+    def gen(self, ctx) -> Stream[_LoggingProducer]:  # type: ignore[no-untyped-def]
+        if _P.get("init_log"):
+            ctx.client_log(Level.INFO, "init")
         return Stream(output_schema=_SCHEMA, state=_LoggingProducer())
 
 
-def _replay_http_producer(args: dict) -> str | None:
+def _replay_http_producer(args: dict, nr: int = 3, init_log: bool = False) -> str | None:
     """Un-stubbed: the real HTTP stack (falcon WSGI app, real tokens) and the real client session with on_log."""
     from vgi_rpc.http import http_connect, make_sync_client
     from vgi_rpc.rpc import RpcServer
 
     P, Impl = _LogProto, _LogImpl
-    script = (args["s0"], args["s1"], args["s2"])
-    _P.update(script=script, n=args["n"], i=0, fr=args["fr"])
+    script = (args["s0"], args["s1"], args.get("s2", 0))
+    _P.update(script=script, n=args["n"], i=0, fr=args["fr"], nr=nr, init_log=init_log)
     seen: list = []
     client = make_sync_client(RpcServer(P, Impl(), server_id="srv"), token_key=b"k" * 32, max_response_bytes=_CAPS[args["cap"]])
-    with http_connect(P, client=client, on_log=lambda m: seen.append(("log", m.message))) as proxy:
-        for ab in proxy.gen():
-            seen.append(("data", ab.batch.column(0)[0].as_py() - 100))
-    want = _expected_sequence(args["n"], script, args["fr"])
+    try:
+        with http_connect(P, client=client, on_log=lambda m: seen.append(("log", m.message))) as proxy:
+            for ab in proxy.gen():
+                seen.append(("data", ab.batch.column(0)[0].as_py() - 100))
+    finally:
+        _P["init_log"] = False
+    want = _expected_sequence(args["n"], script, args["fr"], nr, init_log)
     # the session pre-loads a whole turn, so callbacks may run ahead of the yields: compare what the
     # property states (each log once, in order, before the batch it precedes; data in order)
     ok = [x for x in seen if x[0] == "log"] == [x for x in want if x[0] == "log"] and [x for x in seen if x[0] == "data"] == [x for x in want if x[0] == "data"]
     if ok:
-        for j, item in enumerate(want):
-            if item[0] == "log" and j + 1 < len(want) and seen.index(item) > seen.index(want[j + 1]):
+        nxt = None  # the first data batch after want[j]
+        for item in reversed(want):
+            if item[0] == "data":
+                nxt = item
+            elif nxt is not None and seen.index(item) > seen.index(nxt):
                 ok = False
     if not ok:
         return "HTTP producer (max_response_bytes=%r) emitted %r; the client saw %r" % (_CAPS[args["cap"]], want, seen)
     return None
+
+
+def _judge_producer(seen, want: list) -> bool:  # type: ignore[no-untyped-def]
+    if seen is None or len(seen) != len(want):
+        return False
+    for j in range(len(want)):
+        kind, v = want[j]
+        gkind, g = seen[j]
+        if kind != gkind:
+            return False
+        if kind == "log":
+            if g != v:
+                return False
+        elif not g.equals(_BATCHES[v]):
+            return False
+    return True
+
+
+_NH = pick(2, 3)
+
+
+def _replay_http_init_turn(args: dict) -> str | None:
+    return _replay_http_producer(args, nr=5, init_log=True)
+
+
+@cond(q=150, t=600, encoded=[aps._run_http_producer_turn, wire._ClientLogSink.__call__, wire._ClientLogSink.flush_contents, ty.OutputCollector.emit_client_log_message, wire._flush_collector, wire._dispatch_log_or_error],
+      stubs=["_mint_cursor_token := opaque token that opens to the same state (ideal AEAD)", "_HttpRpcApp := object with the attributes the turn reads"],
+      replay=_replay_http_init_turn, signature=lambda a, c: "C08:http-producer:init-turn-or-mixed-handles",
+      bound="the producer's first turn is the init turn (it receives the call's log sink holding the init method's own log); scripts of <= %d steps, each step logging through "
+            "ctx | the collector | collector then ctx | ctx then collector | not at all, then emitting | emitting and finishing | finishing without data; "
+            "the trailing finishing tick logs through any of the five routes; max_response_bytes in {None, 1, 1e6}" % _NH)
+def http_producer_init_turn_both_handles(cap: int, n: int, s0: int, s1: int, s2: int, fr: int) -> bool:
+    """
+    pre: 0 <= cap <= 2 and 0 <= n <= _NH and 0 <= fr <= 4
+    pre: 0 <= s0 <= 14 and 0 <= s1 <= 14 and 0 <= s2 <= 14
+    post: _
+    """
+    try:
+        seen = _drive_producer_turns(_CAPS[cap], n, (s0, s1, s2), fr, nr=5, init_turn=True)
+    except Exception:  # noqa: BLE001
+        return False
+    return _judge_producer(seen, _expected_sequence(n, (s0, s1, s2), fr, 5, True))
 
 
 @cond(q=150, t=400, encoded=[aps._run_http_producer_turn, ty.OutputCollector.emit_client_log_message, wire._flush_collector, wire._dispatch_log_or_error],
